@@ -29,10 +29,10 @@ def build_jobs(ctx):
         for f in fsel:
             jobs.append({"cfg": c, "file": f})
     for c in cfgs + CFGS_SEEDS_ONLY:
-        for f in seeds:
+        for f in (seeds[:CRLF_SEEDS] if c == "crlf" else seeds):
             jobs.append({"cfg": c, "file": f})
     vseeds = variant_seeds(ctx)
-    vjobs, n1, n2 = enumerate_variants(ctx, vseeds, pairs_sim=0 if ctx.quick else 1500)
+    vjobs, n1, n2 = enumerate_variants(ctx, vseeds, pairs_sim=0 if ctx.quick else 1)
     if ctx.quick:
         vjobs = slice_for_seed(vjobs, ctx.seed, 1200)
     for c in ["default"]:
@@ -42,7 +42,7 @@ def build_jobs(ctx):
         j["id"] = i
     return jobs, {"repo_files": len(fsel), "repo_files_total": len(files), "configs": cfgs,
                   "seed_files": len(seeds), "variant_seeds": len(vseeds),
-                  "single_insertions_enumerated": n1, "pair_insertions_sampled": n2,
+                  "single_insertions_enumerated": n1, "pair_insertions_enumerated": n2,
                   "variants_run": len(vjobs)}
 
 
